@@ -40,3 +40,26 @@ def control_c19(worker):
             ("ctl_smash", "R19.4"), ("ctl_join", "R19.5"), ("ctl_partial_restore", "R19.2")}
     clean = not any(f["function"] == "ctl_good" for f in r["findings"])
     return {"ok": want <= got and clean, "missing": sorted(want - got), "clean_function_silent": clean, "flagged": sorted(got)}
+
+
+def control_c14():
+    import absint
+    import secrecy
+    os.makedirs(os.path.join(build.CACHE, "tmp"), exist_ok=True)
+    lib, tmp = build_control("c14_bad.asm")
+    got = set()
+    try:
+        for key, name in lib.entry_list:
+            f = lib.func(key)
+            p1 = absint.Interp(lib, lambda t: absint.SYSV, keep_regs=True).run(f)
+            role = lambda root: {"RDI": "key"}.get(root, "data")
+            r = secrecy.SecInterp(lib, f, p1, role).run()
+            if r.reg_findings:
+                got.add((name, "R14.1"))
+            if r.stack_findings:
+                got.add((name, "R14.2"))
+    finally:
+        shutil.rmtree(tmp, ignore_errors=True)
+    want = {("ctl_key_in_reg", "R14.1"), ("ctl_key_on_stack", "R14.2")}
+    clean = not any(n == "ctl_clean" for (n, _r) in got)
+    return {"ok": want <= got and clean, "missing": sorted(want - got), "clean_function_silent": clean, "flagged": sorted(got)}
